@@ -35,7 +35,7 @@ for n, lens, tier, cap in (("ascii_1", "0..=1", Q, 600), ("ascii_2", "2", Q, 900
         bounds="one %s run of %s arbitrary codewords (all 256 values each), run to the end of the stream; crate decoder vs independent ISO/IEC 16022 decoder: accepted by the reference => accepted with the same bytes, end index and next mode; never panics; makes progress" % (m, lens),
         encodes=[DEC + _dec_fn[m], DEC + "Reader", DEC + "decode_c40_tuple"] + ([DEC + "read_eci"] if m == "ascii" else []))
 for n in ("c40", "text"):
-    reg("acc_%s_st" % n, "dec", ["C04", "C05"], tier=T, cap=2400,
+    reg("acc_%s_st" % n, "dec", ["C04", "C05"], tier=Q if n == "c40" else T, qprops=["C04"], cap=2400, mem_gb=12,
         bounds="%s: for each of the 7 non-initial decoder states (pending shift set x pending upper shift) a concrete codeword pair producing it, followed by 2 arbitrary codewords (one inductive step over pairs)" % n,
         encodes=[DEC + "decode_c40_like"])
 reg("np_tuple", "dec", ["C05", "C04"], profiles=["dev", "rel"], cap=120,
